@@ -100,7 +100,8 @@ PROPS = {
     'C18': dict(
         title='Text encodings of binary data round-trip',
         verus_units=['cursor'],
-        kani_groups=[],
+        kani_groups=['codec.rs'],
+        bounded_note='Kani stand-in for Bitstr::bytestr / to_bytes (the byte export the encoders feed to the codecs): 3-byte backing buffer with symbolic contents, concrete ranges S..E; labelled BOUNDED, not counted as proved',
         design_ref='DESIGN.md section 5 / C18',
         technique='Verus contracts on the twelve wrapper words of src/base_ext.rs over stand-ins of the three codec crates (uninterpreted enc/dec per codec), '
                   'plus four pair lemmas (encode then decode) over those contracts',
